@@ -36,6 +36,10 @@ class LocalRecordAccessFileObject(FileObject):
         """ Return the number of records. """
         raise NotImplementedError("__len__")
 
+    def __bool__(self):
+        """ An empty file is still an object. """
+        return True
+
     def read_record(self, start_record, record_count):
         """ Read a number of records starting at a specific record. """
         raise NotImplementedError("read_record")
@@ -71,6 +75,10 @@ class LocalStreamAccessFileObject(FileObject):
     def __len__(self):
         """ Return the number of octets in the file. """
         raise NotImplementedError("write_file")
+
+    def __bool__(self):
+        """ An empty file is still an object. """
+        return True
 
     def read_stream(self, start_position, octet_count):
         """ Read a chunk of data out of the file. """
